@@ -94,10 +94,24 @@ def mkCat (a b : Re) : Re :=
   | .eps => b
   | _ => if b = .empty then .empty else .cat a b
 
-def mkAlt (a b : Re) : Re :=
-  match a with
-  | .empty => b
-  | _ => if b = .empty then a else if a = b then a else .alt a b
+/-- The alternatives of a (nested) alternation; `∅` contributes none. -/
+def alts : Re → List Re
+  | .alt a b => alts a ++ alts b
+  | .empty => []
+  | r => [r]
+
+def altOf : List Re → Re
+  | [] => .empty
+  | [r] => r
+  | r :: rs => .alt r (altOf rs)
+
+def dedupRe : List Re → List Re
+  | [] => []
+  | r :: rs => if r ∈ rs then dedupRe rs else r :: dedupRe rs
+
+/-- Alternation modulo associativity and idempotence (and `∅` as unit): keeps the set of derivatives of an
+    expression small, so that nested repetitions do not blow the matcher up. -/
+def mkAlt (a b : Re) : Re := altOf (dedupRe (alts a ++ alts b))
 
 /-- Derivative by `c`, the word starting at the beginning of the subject iff `b`.  A derivative is always
     taken with at least `c` still to come, so a nullable left factor of a concatenation is tested with
@@ -217,18 +231,20 @@ def applyRep (k : RepKind) (a : Re) : Re :=
   | .rep mn (some mx) => catList (List.replicate mn a ++ List.replicate (mx - mn) (.opt a))
   | .rep mn none => catList (List.replicate mn a ++ [.star a])
 
-/-- Postfix operator after an atom: one repetition, optionally lazy (`?`, same language), and NOT
-    followed by another repetition operator (`a**`, `a+*`, `a{2}{3}` are errors in Go/Perl syntax). -/
+/-- A `?` right after a repetition operator makes it lazy (same language). -/
+def dropLazy : List Char → List Char
+  | '?' :: r => r
+  | r => r
+
+/-- Postfix operator after an atom: one repetition, optionally lazy, and NOT followed by another
+    repetition operator (`a**`, `a+*`, `a{2}{3}` are errors in Go/Perl syntax). -/
 def parsePostfix (a : Re) (cs : List Char) : Option (Re × List Char) :=
   match peekRepeat cs with
   | .notRep => some (a, cs)
   | .bad => none
   | .op k rest =>
-    let rest' := match rest with
-      | '?' :: r => r
-      | _ => rest
-    match peekRepeat rest' with
-    | .notRep => some (applyRep k a, rest')
+    match peekRepeat (dropLazy rest) with
+    | .notRep => some (applyRep k a, dropLazy rest)
     | _ => none
 
 /-- One character inside a class (`parseClassChar`): a backslash escapes ASCII punctuation. -/
